@@ -11,6 +11,7 @@ use std::fmt;
 verus! {
 //@include prelude/io_error.rs
 //@include prelude/chan.rs
+//@include prelude/option.rs
 
 #[verifier::external_type_specification]
 #[verifier::external_body]
@@ -256,7 +257,7 @@ impl Request {
             if k == ErrorKind::BrokenPipe || k == ErrorKind::ConnectionAborted || k == ErrorKind::ConnectionRefused || k == ErrorKind::ConnectionReset
                 { r is Ok } else { r == result }
         }),
-//@closure 1 |err: IoError| -> (cr: io::Result<()>) ensures ({ let k = io_error_kind(&err); if k == ErrorKind::BrokenPipe || k == ErrorKind::ConnectionAborted || k == ErrorKind::ConnectionRefused || k == ErrorKind::ConnectionReset { cr is Ok } else { cr == Err::<(), IoError>(err) } })
+//@closure ~err.kind()~ |err: IoError| -> (cr: io::Result<()>) ensures ({ let k = io_error_kind(&err); if k == ErrorKind::BrokenPipe || k == ErrorKind::ConnectionAborted || k == ErrorKind::ConnectionRefused || k == ErrorKind::ConnectionReset { cr is Ok } else { cr == Err::<(), IoError>(err) } })
 //@endfn
 //@endimpl
 
